@@ -66,6 +66,9 @@ CLAIMS = {
  'C13': dict(tech="std's algorithms encoded as term equalities checked by TermFlow; strict/non-strict facts on panic edges; panic-safety typestate",
    text="Decides necessary conditions of agreement with std::vec::Vec that hold for all inputs: insert/remove/split_off/drain panic exactly on std's conditions (the edge into the panic carries exactly that fact); insert, remove, push, pop, swap_remove, split_off, append, extend_from_slice_copy, the drain constructor and into_iter perform exactly std's reads, writes, memmove/memcpy (source, destination, count) and length updates in std's order (49 formula clauses compared after linear normalisation over BASE + i*size_of::<T>()); reserve* forward (len, additional); every RawVec (re)allocation stores the returned pointer; the length is consistent wherever user code can unwind. Equality of results with std for every program (contents after arbitrary sequences) is a runtime-value statement and is not decided.",
    ref='DESIGN.md section 4 C13'),
+ 'C14': dict(tech='must-fact boundary gating, justified-class inventory of unchecked UTF-8 views, table comparison (rustc-evaluated static + HIR match patterns), byte-shift term equalities, panic-safety typestate',
+   text="Decides the structural clauses behind 'always UTF-8' and agreement with std: every byte-level mutation at a caller index in truncate/remove/insert/insert_str/split_off/drain/replace_range is dominated by is_char_boundary(idx) or a checked slicing at idx; every from_utf8_unchecked / String{vec} site in safe code falls in a justified class; the width table equals RFC 3629 and the lossy decoder's arm tables equal Unicode Table 3-7 (all 65 536 byte pairs compared), with four continuation checks and U+FFFD pushed exactly for non-empty broken parts; pop/remove/insert_bytes shift exactly std's byte ranges; range bounds use checked arithmetic; the byte vector is consistent wherever user code can unwind. Equality of text with std::string::String for all programs and exhaustive decoder equivalence on all byte strings are not decided (the tables are the necessary condition).",
+   ref='DESIGN.md section 4 C14'),
 }
 
 NOT_YET = 'check not built yet (build in progress, see DESIGN.md section 9)'
